@@ -933,7 +933,12 @@ class C01(Spec):
         self._run_jobs(ctx, jobs, driver, "search", nproc)
         # sequences on one shared instance
         if ctx.quick and not deep:
-            sjobs = [(name, (ctx.seed, ctx.tier, c), 6) for name in self._rotating_layouts(ctx, 4) for c in range(2)]
+            # two layouts with side loudspeakers (|x| = 1, |y| != 1 in allocentric coordinates: the Cartesian path
+            # extends an exclusion along their row, the richest interplay between the two zone paths) + two others
+            side = ["0+7+0", "4+7+0", "3+7+0", "4+9+0", "9+10+3"]
+            names = [side[(2 * ctx.seed + i) % len(side)] for i in range(2)]
+            names += [n for n in self._rotating_layouts(ctx, 4) if n not in names][:2]
+            sjobs = [(name, (ctx.seed, ctx.tier, c), 10) for name in names for c in range(3)]
         elif ctx.quick:
             sjobs = [(name, (ctx.seed, ctx.tier, c), 15) for name in G.LAYOUTS for c in range(2)]
         else:
